@@ -272,9 +272,15 @@ class Report:
         with open(os.path.join(EVID, self.prop + '.json'), 'w') as f:
             json.dump(ev, f, indent=1, sort_keys=True)
             f.write('\n')
+        # Confirmed violations decide. A result that could not be reproduced is a bug of the
+        # machinery only when nothing else was found; next to confirmed violations it is
+        # usually the same defect showing through uninitialised memory (whose content a
+        # fresh process does not share) and is printed as a note.
+        if self.violations:
+            return 1
         if self.nonrepro:
             return 2
-        return 1 if self.violations else 0
+        return 0
 
 
 COMPONENTS = {
